@@ -1001,6 +1001,22 @@ def units(tier, seed):
         nres=1, nets="chain", cons=("loc", "same12"), effort=0.1,
         nowrap=True, wit=KB, split=7)
 
+    # the Hilbert curve beyond 2x2 (levels 2 and up of the generator): with
+    # the default capacity possibly 0 every vertex may have to go to the one
+    # exceptional chip, wherever on the curve it lies
+    for dims, exc in (((4, 4), (3, 2)), ((4, 4), (0, 3)), ((3, 3), (2, 1)),
+                      ((5, 2), (4, 1))):
+        add("hilbert", "complete %dx%d exception at %s" % (dims + (exc,)),
+            dims=dims, nv=2, nres=1, exc=exc, nets="chain", complete=True,
+            bf=(exc[0] % 2 == 0), split=4)
+    for placer, dims, exc, dead in (("rcm", (3, 3), (2, 1), (1, 1)),
+                                    ("rcm", (4, 2), (3, 0), None),
+                                    ("breadth_first", (3, 3), (0, 2), (1, 0)),
+                                    ("sequential", (3, 2), (2, 1), None),
+                                    ("rand", (3, 2), (1, 1), (0, 0))):
+        add(placer, "complete %dx%d exception at %s" % (dims + (exc,)),
+            dims=dims, nv=2, nres=1, exc=exc, dead=dead, nets="chain",
+            complete=True, split=4)
     # two placers, one after the other, on the same caller-owned objects
     add("hilbert", "then rcm on the same objects: group member as sink",
         dims=(2, 2), nv=3, nres=1, nets="fan", cons=("same12", "resl"),
